@@ -181,11 +181,11 @@ Section Sound.
   Qed.
 
   Lemma good_intfn : forall (f : Q -> Z) p s, Proper (Qeq ==> eq) f ->
-    sv_eq (sym p) s -> (match p with RPi q => qzero q | _ => true end) = true ->
+    sv_eq (sym p) s -> exact_arg p = true ->
     exists s', sv_intfn f s = Some s' /\
                sv_eq (sym (RSimple (inject_Z (f (rapprox piq p))))) s'.
   Proof.
-    intros f p s Hf [H1 H2] Hp. unfold sv_intfn. destruct p as [q|q]; cbn [sym fst snd rapprox] in *.
+    intros f p s Hf [H1 H2] Hp. unfold sv_intfn. destruct p as [q|q]; cbn [sym fst snd rapprox exact_arg] in *.
     - rewrite (qzero_true (snd s)) by (rewrite <- H2; reflexivity).
       eexists. split; [reflexivity|]. split; cbn [fst snd]; [|reflexivity]. rewrite H1. reflexivity.
     - apply qzero_iff in Hp.
@@ -194,28 +194,31 @@ Section Sound.
       assert (Hq : (q * piq == fst s)%Q) by (rewrite <- H1, Hp; ring). rewrite Hq. reflexivity.
   Qed.
 
-  Lemma pi_multiple_false : forall e p fl, pi_multiple piq e = false -> rfeval piq e = Ok (p, fl) ->
-    (match p with RPi q => qzero q | _ => true end) = true.
+  Lemma pi_multiple_false : forall e p fl, pi_multiple piq e = false -> rfeval_gen piq true e = Ok (p, fl) ->
+    exact_arg p = true.
   Proof.
-    intros e p fl H E. unfold pi_multiple in H. rewrite E in H. destruct p; [reflexivity|].
+    intros e p fl H E. unfold pi_multiple, rfeval_old in H. rewrite E in H.
     apply Bool.negb_false_iff in H. assumption.
   Qed.
 
-  Theorem real_flag_sound_lemma : forall e p,
-    known_C03_intfn_of_pi piq e = false -> rfeval piq e = Ok (p, true) ->
+  (* one proof for both rules: with the old rule the classifier must be false *)
+  Lemma real_flag_sound_gen : forall old e p,
+    (old = true -> known_C03_intfn_of_pi piq e = false) -> rfeval_gen piq old e = Ok (p, true) ->
     exists s, sval e = Some s /\ sv_eq (sym p) s.
   Proof.
+    intros old.
     induction e as [q| |e IH|e IH|a IHa b IHb|a IHa b IHb|a IHa b IHb|a IHa b IHb|e IH n|e IH|e IH|e IH];
-      intros p Hk H; cbn [rfeval sval known_C03_intfn_of_pi] in *.
+      intros p Hk H; cbn [rfeval_gen sval known_C03_intfn_of_pi] in *.
     - injection H as <-. eexists. split; [reflexivity|]. split; reflexivity.
     - injection H as <-. eexists. split; [reflexivity|]. split; reflexivity.
-    - destruct (rfeval piq e) as [[v f]| |]; cbn [bind] in H; discriminate.
-    - destruct (rfeval piq e) as [[v f]| |] eqn:E; cbn [bind] in H; try discriminate.
+    - destruct (rfeval_gen piq old e) as [[v f]| |]; cbn [bind] in H; discriminate.
+    - destruct (rfeval_gen piq old e) as [[v f]| |] eqn:E; cbn [bind] in H; try discriminate.
       injection H as <- ->. destruct (IH v Hk eq_refl) as (s & -> & [H1 H2]).
       eexists. split; [reflexivity|]. destruct v; cbn [rpneg sym fst snd] in *; split; cbn [fst snd]; rewrite <- ?H1, <- ?H2; ring.
-    - apply Bool.orb_false_iff in Hk as [Ka Kb].
-      destruct (rfeval piq a) as [[pa fa]| |] eqn:Ea; cbn [bind] in H; try discriminate.
-      destruct (rfeval piq b) as [[pb fb]| |] eqn:Eb; cbn [bind] in H; try discriminate.
+    - assert (Ka : old = true -> known_C03_intfn_of_pi piq a = false) by (intros Ho; specialize (Hk Ho); apply Bool.orb_false_iff in Hk; tauto).
+      assert (Kb : old = true -> known_C03_intfn_of_pi piq b = false) by (intros Ho; specialize (Hk Ho); apply Bool.orb_false_iff in Hk; tauto).
+      destruct (rfeval_gen piq old a) as [[pa fa]| |] eqn:Ea; cbn [bind] in H; try discriminate.
+      destruct (rfeval_gen piq old b) as [[pb fb]| |] eqn:Eb; cbn [bind] in H; try discriminate.
       injection H as H. assert (Hfl : fa = true /\ fb = true).
       { unfold v_add in H. cbn [fst snd] in H. destruct (rzero pb); injection H as _ Hf;
           destruct fa, fb; cbn in Hf; try discriminate; auto. }
@@ -224,9 +227,10 @@ Section Sound.
       cbn [obind]. eexists. split; [reflexivity|].
       pose proof (good_add (pa, true) (pb, true) sa sb Ha Hb eq_refl eq_refl) as G.
       rewrite H in G. apply G. reflexivity.
-    - apply Bool.orb_false_iff in Hk as [Ka Kb].
-      destruct (rfeval piq a) as [[pa fa]| |] eqn:Ea; cbn [bind] in H; try discriminate.
-      destruct (rfeval piq b) as [[pb fb]| |] eqn:Eb; cbn [bind] in H; try discriminate.
+    - assert (Ka : old = true -> known_C03_intfn_of_pi piq a = false) by (intros Ho; specialize (Hk Ho); apply Bool.orb_false_iff in Hk; tauto).
+      assert (Kb : old = true -> known_C03_intfn_of_pi piq b = false) by (intros Ho; specialize (Hk Ho); apply Bool.orb_false_iff in Hk; tauto).
+      destruct (rfeval_gen piq old a) as [[pa fa]| |] eqn:Ea; cbn [bind] in H; try discriminate.
+      destruct (rfeval_gen piq old b) as [[pb fb]| |] eqn:Eb; cbn [bind] in H; try discriminate.
       injection H as H. cbn [fst snd] in H. assert (Hfl : fa = true /\ fb = true).
       { unfold v_add in H. cbn [fst snd] in H. destruct (rzero (rpneg pb)); injection H as _ Hf;
           destruct fa, fb; cbn in Hf; try discriminate; auto. }
@@ -238,48 +242,69 @@ Section Sound.
       pose proof (good_add (pa, true) (rpneg pb, true) sa (- fst sb, - snd sb)%Q Ha Hnb eq_refl eq_refl) as G.
       rewrite H in G. destruct (G eq_refl) as [G1 G2]. cbn [fst snd] in *.
       split; cbn [fst snd]; [rewrite G1|rewrite G2]; ring.
-    - apply Bool.orb_false_iff in Hk as [Ka Kb].
-      destruct (rfeval piq a) as [[pa fa]| |] eqn:Ea; cbn [bind] in H; try discriminate.
-      destruct (rfeval piq b) as [[pb fb]| |] eqn:Eb; cbn [bind] in H; try discriminate.
+    - assert (Ka : old = true -> known_C03_intfn_of_pi piq a = false) by (intros Ho; specialize (Hk Ho); apply Bool.orb_false_iff in Hk; tauto).
+      assert (Kb : old = true -> known_C03_intfn_of_pi piq b = false) by (intros Ho; specialize (Hk Ho); apply Bool.orb_false_iff in Hk; tauto).
+      destruct (rfeval_gen piq old a) as [[pa fa]| |] eqn:Ea; cbn [bind] in H; try discriminate.
+      destruct (rfeval_gen piq old b) as [[pb fb]| |] eqn:Eb; cbn [bind] in H; try discriminate.
       injection H as Hp Hf. cbn [fst snd] in *.
       destruct fa, fb; cbn [andb] in Hf; try discriminate.
       destruct (IHa pa Ka eq_refl) as (sa & -> & Ha). destruct (IHb pb Kb eq_refl) as (sb & -> & Hb).
       cbn [obind]. subst p. apply (good_cmul (pa, true) (pb, true)); auto.
-    - apply Bool.orb_false_iff in Hk as [Ka Kb].
-      destruct (rfeval piq a) as [[pa fa]| |] eqn:Ea; cbn [bind] in H; try discriminate.
-      destruct (rfeval piq b) as [[pb fb]| |] eqn:Eb; cbn [bind] in H; try discriminate.
+    - assert (Ka : old = true -> known_C03_intfn_of_pi piq a = false) by (intros Ho; specialize (Hk Ho); apply Bool.orb_false_iff in Hk; tauto).
+      assert (Kb : old = true -> known_C03_intfn_of_pi piq b = false) by (intros Ho; specialize (Hk Ho); apply Bool.orb_false_iff in Hk; tauto).
+      destruct (rfeval_gen piq old a) as [[pa fa]| |] eqn:Ea; cbn [bind] in H; try discriminate.
+      destruct (rfeval_gen piq old b) as [[pb fb]| |] eqn:Eb; cbn [bind] in H; try discriminate.
       destruct (er_div piq (pa, fa) (pb, fb)) as [r| |] eqn:Ed; cbn [bind] in H; try discriminate.
       injection H as Hp Hf. cbn [fst snd] in *.
       destruct (snd r) eqn:Hr, fa, fb; cbn [andb] in Hf; try discriminate.
       destruct (IHa pa Ka eq_refl) as (sa & -> & Ha). destruct (IHb pb Kb eq_refl) as (sb & -> & Hb).
       cbn [obind]. subst p. apply (good_div (pa, true) (pb, true) r); auto.
-    - destruct (rfeval piq e) as [[pe fe]| |] eqn:Ee; cbn [bind] in H; try discriminate.
+    - destruct (rfeval_gen piq old e) as [[pe fe]| |] eqn:Ee; cbn [bind] in H; try discriminate.
       destruct (real_pow piq (fst (pe, fe)) n) as [r| |] eqn:Er; cbn [bind] in H; try discriminate.
       injection H as Hp Hf. cbn [fst snd] in *.
       destruct fe, (snd r) eqn:Hr; cbn [andb] in Hf; try discriminate.
       destruct (IH pe Hk eq_refl) as (se & -> & He). cbn [obind]. subst p.
       apply (good_pow pe n r se); auto.
-    - apply Bool.orb_false_iff in Hk as [Kp Ke].
-      destruct (rfeval piq e) as [[pe fe]| |] eqn:Ee; cbn [bind] in H; try discriminate.
-      injection H as <- ->. cbn [fst snd] in *.
+    - destruct (rfeval_gen piq old e) as [[pe fe]| |] eqn:Ee; cbn [bind] in H; try discriminate.
+      unfold v_intfn in H. injection H as <- Hf. cbn [fst snd] in *.
+      apply Bool.andb_true_iff in Hf as [-> Hx].
+      assert (Ke : old = true -> known_C03_intfn_of_pi piq e = false) by (intros Ho; specialize (Hk Ho); apply Bool.orb_false_iff in Hk; tauto).
       destruct (IH pe Ke eq_refl) as (se & -> & He). cbn [obind].
-      apply good_intfn; [intros u w Huw; apply Qfloor_comp; exact Huw|assumption|eapply pi_multiple_false; eassumption].
-    - apply Bool.orb_false_iff in Hk as [Kp Ke].
-      destruct (rfeval piq e) as [[pe fe]| |] eqn:Ee; cbn [bind] in H; try discriminate.
-      injection H as <- ->. cbn [fst snd] in *.
+      apply good_intfn; [intros u w Huw; apply Qfloor_comp; exact Huw|assumption|].
+      destruct old; [|exact Hx]. specialize (Hk eq_refl). apply Bool.orb_false_iff in Hk as [Kp _].
+      eapply pi_multiple_false; eassumption.
+    - destruct (rfeval_gen piq old e) as [[pe fe]| |] eqn:Ee; cbn [bind] in H; try discriminate.
+      unfold v_intfn in H. injection H as <- Hf. cbn [fst snd] in *.
+      apply Bool.andb_true_iff in Hf as [-> Hx].
+      assert (Ke : old = true -> known_C03_intfn_of_pi piq e = false) by (intros Ho; specialize (Hk Ho); apply Bool.orb_false_iff in Hk; tauto).
       destruct (IH pe Ke eq_refl) as (se & -> & He). cbn [obind].
-      apply good_intfn; [intros u w Huw; apply Qceiling_comp; exact Huw|assumption|eapply pi_multiple_false; eassumption].
-    - apply Bool.orb_false_iff in Hk as [Kp Ke].
-      destruct (rfeval piq e) as [[pe fe]| |] eqn:Ee; cbn [bind] in H; try discriminate.
-      injection H as <- ->. cbn [fst snd] in *.
+      apply good_intfn; [intros u w Huw; apply Qceiling_comp; exact Huw|assumption|].
+      destruct old; [|exact Hx]. specialize (Hk eq_refl). apply Bool.orb_false_iff in Hk as [Kp _].
+      eapply pi_multiple_false; eassumption.
+    - destruct (rfeval_gen piq old e) as [[pe fe]| |] eqn:Ee; cbn [bind] in H; try discriminate.
+      unfold v_intfn in H. injection H as <- Hf. cbn [fst snd] in *.
+      apply Bool.andb_true_iff in Hf as [-> Hx].
+      assert (Ke : old = true -> known_C03_intfn_of_pi piq e = false) by (intros Ho; specialize (Hk Ho); apply Bool.orb_false_iff in Hk; tauto).
       destruct (IH pe Ke eq_refl) as (se & -> & He). cbn [obind].
-      apply good_intfn; [intros u w Huw; apply qround_proper; exact Huw|assumption|eapply pi_multiple_false; eassumption].
+      apply good_intfn; [intros u w Huw; apply qround_proper; exact Huw|assumption|].
+      destruct old; [|exact Hx]. specialize (Hk eq_refl). apply Bool.orb_false_iff in Hk as [Kp _].
+      eapply pi_multiple_false; eassumption.
   Qed.
+
+  (* FULL STRENGTH, today's code *)
+  Theorem real_flag_sound_lemma : forall e p,
+    rfeval piq e = Ok (p, true) -> exists s, sval e = Some s /\ sv_eq (sym p) s.
+  Proof. intros e p H. apply (real_flag_sound_gen false e p); [discriminate|exact H]. Qed.
+
+  Theorem real_flag_sound_old_except_known_lemma : forall e p,
+    known_C03_intfn_of_pi piq e = false -> rfeval_old piq e = Ok (p, true) ->
+    exists s, sval e = Some s /\ sv_eq (sym p) s.
+  Proof. intros e p Hk H. apply (real_flag_sound_gen true e p); [intros _; exact Hk|exact H]. Qed.
 
   (* without the exclusion the statement is false: floor(pi) is flagged exact
      although it is computed from the rational stand-in for pi *)
-  Theorem real_flag_sound_refuted_lemma :
-    exists e p, rfeval piq e = Ok (p, true) /\ sval e = None.
+  Theorem real_flag_sound_old_refuted_lemma :
+    exists e p, rfeval_old piq e = Ok (p, true) /\ sval e = None.
   Proof. exists (RFloor RPiC). eexists. split; reflexivity. Qed.
 
   (* anything built from an `approx.` operand is flagged inexact *)
@@ -291,47 +316,48 @@ Section Sound.
     | RAdd a b | RSub a b | RMul a b | RDiv a b => r_uses_approx a || r_uses_approx b
     end.
 
-  Theorem real_flag_monotone_lemma : forall e p fl,
-    r_uses_approx e = true -> rfeval piq e = Ok (p, fl) -> fl = false.
+  Theorem real_flag_monotone_lemma : forall old e p fl,
+    r_uses_approx e = true -> rfeval_gen piq old e = Ok (p, fl) -> fl = false.
   Proof.
+    intros old.
     induction e as [q| |e IH|e IH|a IHa b IHb|a IHa b IHb|a IHa b IHb|a IHa b IHb|e IH n|e IH|e IH|e IH];
-      intros p fl Hu H; cbn [rfeval r_uses_approx] in *; try discriminate.
-    - destruct (rfeval piq e) as [[v f]| |]; cbn [bind] in H; try discriminate. injection H as _ <-. reflexivity.
-    - destruct (rfeval piq e) as [[v f]| |] eqn:E; cbn [bind] in H; try discriminate. injection H as _ <-.
+      intros p fl Hu H; cbn [rfeval_gen r_uses_approx] in *; try discriminate.
+    - destruct (rfeval_gen piq old e) as [[v f]| |]; cbn [bind] in H; try discriminate. injection H as _ <-. reflexivity.
+    - destruct (rfeval_gen piq old e) as [[v f]| |] eqn:E; cbn [bind] in H; try discriminate. injection H as _ <-.
       eapply IH; eauto.
-    - destruct (rfeval piq a) as [[pa fa]| |] eqn:Ea; cbn [bind] in H; try discriminate.
-      destruct (rfeval piq b) as [[pb fb]| |] eqn:Eb; cbn [bind] in H; try discriminate.
+    - destruct (rfeval_gen piq old a) as [[pa fa]| |] eqn:Ea; cbn [bind] in H; try discriminate.
+      destruct (rfeval_gen piq old b) as [[pb fb]| |] eqn:Eb; cbn [bind] in H; try discriminate.
       injection H as H. unfold v_add in H. cbn [fst snd] in H.
       assert (Hab : fa && fb = false).
       { apply Bool.orb_true_iff in Hu as [Hu|Hu]; [rewrite (IHa _ _ Hu eq_refl)|rewrite (IHb _ _ Hu eq_refl)];
           [reflexivity|apply Bool.andb_false_r]. }
       destruct (rzero pb); injection H as _ <-; rewrite Hab; reflexivity.
-    - destruct (rfeval piq a) as [[pa fa]| |] eqn:Ea; cbn [bind] in H; try discriminate.
-      destruct (rfeval piq b) as [[pb fb]| |] eqn:Eb; cbn [bind] in H; try discriminate.
+    - destruct (rfeval_gen piq old a) as [[pa fa]| |] eqn:Ea; cbn [bind] in H; try discriminate.
+      destruct (rfeval_gen piq old b) as [[pb fb]| |] eqn:Eb; cbn [bind] in H; try discriminate.
       injection H as H. unfold v_add in H. cbn [fst snd] in H.
       assert (Hab : fa && fb = false).
       { apply Bool.orb_true_iff in Hu as [Hu|Hu]; [rewrite (IHa _ _ Hu eq_refl)|rewrite (IHb _ _ Hu eq_refl)];
           [reflexivity|apply Bool.andb_false_r]. }
       destruct (rzero (rpneg pb)); injection H as _ <-; rewrite Hab; reflexivity.
-    - destruct (rfeval piq a) as [[pa fa]| |] eqn:Ea; cbn [bind] in H; try discriminate.
-      destruct (rfeval piq b) as [[pb fb]| |] eqn:Eb; cbn [bind] in H; try discriminate.
+    - destruct (rfeval_gen piq old a) as [[pa fa]| |] eqn:Ea; cbn [bind] in H; try discriminate.
+      destruct (rfeval_gen piq old b) as [[pb fb]| |] eqn:Eb; cbn [bind] in H; try discriminate.
       injection H as _ <-. cbn [fst snd].
       apply Bool.orb_true_iff in Hu as [Hu|Hu]; [rewrite (IHa _ _ Hu eq_refl)|rewrite (IHb _ _ Hu eq_refl)];
         [reflexivity|rewrite Bool.andb_false_r; reflexivity].
-    - destruct (rfeval piq a) as [[pa fa]| |] eqn:Ea; cbn [bind] in H; try discriminate.
-      destruct (rfeval piq b) as [[pb fb]| |] eqn:Eb; cbn [bind] in H; try discriminate.
+    - destruct (rfeval_gen piq old a) as [[pa fa]| |] eqn:Ea; cbn [bind] in H; try discriminate.
+      destruct (rfeval_gen piq old b) as [[pb fb]| |] eqn:Eb; cbn [bind] in H; try discriminate.
       destruct (er_div piq (pa, fa) (pb, fb)) as [r| |]; cbn [bind] in H; try discriminate.
       injection H as _ <-. cbn [fst snd].
       apply Bool.orb_true_iff in Hu as [Hu|Hu]; [rewrite (IHa _ _ Hu eq_refl)|rewrite (IHb _ _ Hu eq_refl)];
         destruct (snd r); try destruct fa; try destruct fb; reflexivity.
-    - destruct (rfeval piq e) as [[pe fe]| |] eqn:Ee; cbn [bind] in H; try discriminate.
+    - destruct (rfeval_gen piq old e) as [[pe fe]| |] eqn:Ee; cbn [bind] in H; try discriminate.
       destruct (real_pow piq (fst (pe, fe)) n) as [r| |]; cbn [bind] in H; try discriminate.
       injection H as _ <-. cbn [snd]. rewrite (IH _ _ Hu eq_refl). reflexivity.
-    - destruct (rfeval piq e) as [[pe fe]| |] eqn:Ee; cbn [bind] in H; try discriminate.
-      injection H as _ <-. cbn [snd]. eapply IH; eauto.
-    - destruct (rfeval piq e) as [[pe fe]| |] eqn:Ee; cbn [bind] in H; try discriminate.
-      injection H as _ <-. cbn [snd]. eapply IH; eauto.
-    - destruct (rfeval piq e) as [[pe fe]| |] eqn:Ee; cbn [bind] in H; try discriminate.
-      injection H as _ <-. cbn [snd]. eapply IH; eauto.
+    - destruct (rfeval_gen piq old e) as [[pe fe]| |] eqn:Ee; cbn [bind] in H; try discriminate.
+      injection H as _ <-. cbn [snd]. rewrite (IH _ _ Hu eq_refl). reflexivity.
+    - destruct (rfeval_gen piq old e) as [[pe fe]| |] eqn:Ee; cbn [bind] in H; try discriminate.
+      injection H as _ <-. cbn [snd]. rewrite (IH _ _ Hu eq_refl). reflexivity.
+    - destruct (rfeval_gen piq old e) as [[pe fe]| |] eqn:Ee; cbn [bind] in H; try discriminate.
+      injection H as _ <-. cbn [snd]. rewrite (IH _ _ Hu eq_refl). reflexivity.
   Qed.
 End Sound.
